@@ -78,7 +78,23 @@ def ka_scenarios(rng, n):
                 sc['ops'].append({'op': 'map', 'n': rng.randint(2, 5), 'chunk_size': 1})
             sc['same_func'] = rng.random() < .5
             sc.pop('expect_join_ok', None)
-        if rng.random() < .25:
+        if rng.random() < .12:
+            # a worker that sits a call out: call 1 in one ordering mode; call 2 in the other mode with another function and fewer
+            # chunks than workers; call 3 in the first mode again with the function of call 2 — the worker that had nothing to do in
+            # call 2 gets chunks now
+            nj = rng.choice([2, 3, 4])
+            a_ordered = rng.random() < .5
+            A = ['map', 'imap'] if a_ordered else ['map_unordered', 'imap_unordered']
+            B = ['map_unordered', 'imap_unordered'] if a_ordered else ['map', 'imap']
+            el = rng.choice(['scalar', 'tuple', 'dict'])
+            sc['pool'] = {'n_jobs': nj, 'start_method': rng.choice(['fork', 'threading']), 'keep_alive': True}
+            sc['ops'] = [{'op': rng.choice(A), 'n': rng.randint(nj, 3 * nj), 'chunk_size': 1, 'elem': el, 'func_group': 0},
+                         {'op': rng.choice(B), 'n': rng.randint(1, nj - 1), 'chunk_size': 1, 'elem': el, 'func_group': 1},
+                         {'op': rng.choice(A), 'n': rng.randint(2 * nj, 4 * nj), 'chunk_size': 1, 'elem': el, 'func_group': 1}]
+            sc['same_func'] = False
+            sc.pop('rules', None)
+            sc.pop('expect_join_ok', None)
+        if rng.random() < .25 and not any('func_group' in o_ for o_ in sc['ops']):
             # each call passes a functools.partial of the same underlying functions, bound to ITS data
             sc['same_func'] = False
             sc['func_kind'] = rng.choice(['partial', 'partial_kw'])       # bound to its call by a positional or by a keyword argument
